@@ -259,7 +259,7 @@ def run(tier, seed, replay):
                     "{statement boundaries} x {garbage lexemes}", len(cases), fails,
                     nontrivial=len({(c["kind"], c.get("g"), c.get("shape")) for c in cases}),
                     samples=[{"kind": c["kind"], "g": c.get("g")} for c in cases[1:4]], time_s=dt)
-    explained = any(i.status == "failed" for i in chk.items)
+    explained = chk.has_unlisted_failure()
     if fails and not explained:
         c, m = fails[0]
         chk.report_violation("C07.bounded.segments", {"property": "C07", "obligation": "C07.bounded.segments",
